@@ -186,7 +186,11 @@ func (c *canoner) walk(v reflect.Value, tag string) {
 		for i := 0; i < v.NumField(); i++ {
 			f := t.Field(i)
 			if (f.Name == "Path" || f.Name == "path") && f.Type == tLangPath {
-				own = exported(v.Field(i)).Interface().(lang.Path).Path
+				lp := exported(v.Field(i)).Interface().(lang.Path)
+				own = lp.Path
+				if lp.LanguageID != "" && lp.LanguageID != "tf" && lp.LanguageID != "x" {
+					own = lp.Path + "#" + lp.LanguageID
+				}
 			}
 		}
 		for i := 0; i < v.NumField(); i++ {
